@@ -70,6 +70,7 @@ def variant_record(proc, rng, tag, src, sched_descr, rec: X.Recorder, n_inputs):
             from exo.core.LoopIR import get_writes_of_stmts
             pr["writes_real"] = [ex.sy(s) for s, _ in get_writes_of_stmts(p2.body)]
             pr["heap"] = heap_counts(p2.body)
+            pr["static_free"] = static_free_check(p2.body)
         except X.Unsupported as e:
             pr["unsupported"] = str(e)
         out["procs"].append(pr)
@@ -163,6 +164,100 @@ def features(ss):
 
     go(ss, False)
     return f
+
+
+def all_syms_e(e, acc):
+    """every Sym occurring anywhere in expression e (independent of used_e)"""
+    from exo.core.LoopIR import LoopIR
+    if isinstance(e, (LoopIR.Read, LoopIR.WindowExpr, LoopIR.StrideExpr)):
+        acc.add(e.name)
+    if isinstance(e, LoopIR.Read):
+        for i in e.idx:
+            all_syms_e(i, acc)
+    elif isinstance(e, LoopIR.WindowExpr):
+        for w in e.idx:
+            if isinstance(w, LoopIR.Interval):
+                all_syms_e(w.lo, acc)
+                all_syms_e(w.hi, acc)
+            else:
+                all_syms_e(w.pt, acc)
+    elif isinstance(e, LoopIR.BinOp):
+        all_syms_e(e.lhs, acc)
+        all_syms_e(e.rhs, acc)
+    elif isinstance(e, LoopIR.USub):
+        all_syms_e(e.arg, acc)
+    elif isinstance(e, LoopIR.Extern):
+        for a in e.args:
+            all_syms_e(a, acc)
+
+
+def all_syms_s(s, acc, wins):
+    from exo.core.LoopIR import LoopIR
+    if isinstance(s, (LoopIR.Assign, LoopIR.Reduce)):
+        acc.add(s.name)
+        for i in s.idx:
+            all_syms_e(i, acc)
+        all_syms_e(s.rhs, acc)
+    elif isinstance(s, LoopIR.WriteConfig):
+        all_syms_e(s.rhs, acc)
+    elif isinstance(s, LoopIR.If):
+        all_syms_e(s.cond, acc)
+        for b in s.body + s.orelse:
+            all_syms_s(b, acc, wins)
+    elif isinstance(s, LoopIR.For):
+        all_syms_e(s.lo, acc)
+        all_syms_e(s.hi, acc)
+        for b in s.body:
+            all_syms_s(b, acc, wins)
+    elif isinstance(s, LoopIR.Call):
+        for a in s.args:
+            all_syms_e(a, acc)
+    elif isinstance(s, LoopIR.WindowStmt):
+        wins[s.name] = s.rhs.name
+        all_syms_e(s.rhs, acc)
+    elif isinstance(s, LoopIR.Alloc):
+        acc.add(s.name)
+
+
+def static_free_check(ss, wins=None, out=None):
+    """Direct check of the REAL MemoryAnalysis output, independent of the model and of used_e/used_s: in every scope,
+    (a) no statement after `Free x` mentions x or a window whose base chain reaches x, (b) every Alloc of the scope has
+    exactly one Free of the scope after it.  Returns a list of findings."""
+    from exo.core.LoopIR import LoopIR
+    wins = {} if wins is None else wins
+    out = [] if out is None else out
+    freed = []
+    allocd = {}
+    for s in ss:
+        if isinstance(s, LoopIR.Free):
+            if allocd.get(s.name, 0) != 1:
+                out.append("free-without-alloc:%s" % s.name)
+            allocd[s.name] = allocd.get(s.name, 0) - 1
+            freed.append(s.name)
+            continue
+        acc = set()
+        all_syms_s(s, acc, wins)
+        reach = set()
+        for n in acc:
+            seen = 0
+            while n is not None and seen < 100:
+                reach.add(n)
+                n = wins.get(n)
+                seen += 1
+        for x in freed:
+            if x in reach:
+                out.append("use-after-free:%s:in-%s" % (x, type(s).__name__))
+        if isinstance(s, LoopIR.Alloc):
+            allocd[s.name] = allocd.get(s.name, 0) + 1
+        elif isinstance(s, LoopIR.If):
+            static_free_check(s.body, wins, out)
+            static_free_check(s.orelse, wins, out)
+        elif isinstance(s, LoopIR.For):
+            static_free_check(s.body, wins, out)
+    for x, k in allocd.items():
+        if k != 0:
+            out.append("alloc-not-freed-in-scope:%s" % x)
+    return out
 
 
 def heap_counts(ss):
